@@ -408,7 +408,84 @@ func xbBurst(o *common.Out, id string, thr int) {
 	o.Count("xclient-dial-burst")
 }
 
+// xbUpdate: the breaker of a dead server is open; the registry then republishes the server (new metadata, or dropped
+// and announced again): that is neither a success nor an elapsed window - the server is still not dialled.
+// case: xupd|thr|variant
+func xbUpdate(o *common.Out, id string, thr int, variant string) {
+	abstract := fmt.Sprintf("xupd|%d|%s", thr, variant)
+	o.Begin(id, abstract)
+	addr := "xupd-" + id
+	var dials, accept int32
+	vrefuseMu.Lock()
+	vrefuseDials[addr] = &dials
+	vrefuseOK[addr] = &accept
+	vrefuseMu.Unlock()
+	key := "vrefuse@" + addr
+	d, _ := client.NewMultipleServersDiscovery([]*client.KVPair{{Key: key, Value: "v=1"}})
+	opt := client.DefaultOption
+	opt.Retries = 0
+	opt.SerializeType = protocol.JSON
+	opt.GenBreaker = func() client.Breaker { return client.NewConsecCircuitBreaker(uint64(thr), time.Hour) }
+	xc := client.NewXClient("Arith", client.Failfast, client.RandomSelect, d, opt)
+	defer xc.Close()
+	call := func() error {
+		var reply int
+		ctx, cancel := context.WithTimeout(context.Background(), 2*time.Second)
+		defer cancel()
+		return xc.Call(ctx, "Mul", 1, &reply)
+	}
+	for i := 0; i < thr; i++ {
+		call()
+	}
+	refused := atomic.LoadInt32(&dials)
+	wait := func(val string, present bool) {
+		deadline := time.Now().Add(2 * time.Second)
+		for time.Now().Before(deadline) {
+			v, ok := client.VerifXClientServers(xc)[key]
+			if ok == present && (!present || v == val) {
+				return
+			}
+			time.Sleep(200 * time.Microsecond)
+		}
+	}
+	switch variant {
+	case "metadata":
+		d.Update([]*client.KVPair{{Key: key, Value: "v=2"}})
+		wait("v=2", true)
+	case "readd":
+		d.Update([]*client.KVPair{{Key: "vrefuse@other-" + addr, Value: ""}})
+		wait("", false)
+		d.Update([]*client.KVPair{{Key: key, Value: "v=1"}})
+		wait("v=1", true)
+	case "same":
+		d.Update([]*client.KVPair{{Key: key, Value: "v=1"}})
+		time.Sleep(3 * time.Millisecond)
+	}
+	err := call()
+	after := atomic.LoadInt32(&dials)
+	if int(refused) >= thr && after != refused {
+		o.Fail(id, "xclient-dial-trace", fmt.Sprintf("%d consecutive connection failures (threshold %d), window not elapsed; after the registry republished the server (%s) it was dialled again (err=%v)", refused, thr, variant, err), abstract)
+	}
+	o.ImplOnly(id, abstract, int(refused) >= thr)
+	o.Count("xclient-dial-after-update")
+}
+
 func runC18(r *common.Rand, tier string, o *common.Out, replay string) {
+	if strings.HasPrefix(replay, "xupd|") {
+		p := strings.Split(replay, "|")
+		thr, _ := strconv.Atoi(p[1])
+		xbUpdate(o, "replay", thr, p[2])
+		return
+	}
+	if replay == "" {
+		k := 0
+		for thr := 1; thr <= 3; thr++ {
+			for _, v := range []string{"metadata", "readd", "same"} {
+				k++
+				xbUpdate(o, fmt.Sprintf("xupd%d", k), thr, v)
+			}
+		}
+	}
 	if strings.HasPrefix(replay, "xburst|") {
 		thr, _ := strconv.Atoi(strings.Split(replay, "|")[1])
 		xbBurst(o, "replay", thr)
